@@ -396,6 +396,15 @@ sqf::runtime::runtime::result sqf::runtime::runtime::execute(sqf::runtime::runti
                         }
                         else
                         {
+                            // no instruction executes while a script sleeps, so execute_do cannot notice the deadline: it is checked here too
+                            if (m_configuration.max_runtime != std::chrono::milliseconds::zero() &&
+                                m_configuration.max_runtime + run_timestamp() < std::chrono::system_clock::now())
+                            {
+                                __logmsg(logmessage::runtime::MaximumRuntimeReached(m_context_active->current_frame().diag_info_from_position(), m_configuration.max_runtime));
+                                m_runtime_error = false;
+                                log_messages.clear();
+                                exit(0);
+                            }
                             res = result::ok;
                         }
                     }
